@@ -305,7 +305,7 @@ pub fn run(rep: &mut Report) {
     if !cfg!(feature = "full") {
         rep.assume("this harness build has no gzip/zstd support: compressed patterns are not exercised");
     }
-    let n = if rep.tier == "thorough" { 20_000 } else { 1_200 };
+    let n = if rep.tier == "thorough" { 30_000 } else { 4_000 };
     run_cases(rep, "roll", n, one_case);
     rep.require(rep.counter("rolls_observed") > 1000, "fewer than 1000 rolls observed");
     rep.require(rep.counter("archives_compared") > 1000, "fewer than 1000 archives compared");
